@@ -58,19 +58,26 @@ if any((_I < 0 or _I > _MAX for _I in a_range)):
     ctx.floor('C13.R1', 8)
 
     f = D.methods['remove']
-    txt = [unparse(s) for s in f.body]
-    col = None
-    for s in f.body:
-        if isinstance(s, ast.Assign) and isinstance(s.value, ast.Constant) and isinstance(s.value.value, str):
-            col = unparse(s.targets[0])
-    ctx.need(col is not None, 'remove names its temporary column')
-    pred = f'self.data[self.data[{col}] != 0].index'
-    cnt = [t for t in txt if t.startswith('self.excludedData = ')]
-    drop = [t for t in txt if t.startswith('self.data.drop(') and 'columns' not in t]
-    dropcol = [t for t in txt if t.startswith('self.data.drop(columns=')]
-    ok = cnt == [f'self.excludedData = len({pred})'] and drop == [f'self.data.drop({pred}, inplace=True)'] and dropcol == [f'self.data.drop(columns=[{col}], inplace=True)']
-    ok = ok and txt.index(dropcol[0]) > txt.index(drop[0]) > txt.index(cnt[0]) and any(t == f'self.add_column(expression, {col})' for t in txt)
-    ctx.add('C13.R2', 'Database.remove', ok, f, 'counts and drops the rows where the expression is non-zero, then drops the temporary column' if ok else f'remove: {" ; ".join(txt)[:200]}', ' ; '.join(txt))
+    b = find(f.node, """
+_COL = __NAME
+___
+self.add_column(_E, _COL)
+self.excludedData = len(__COUNTED)
+self.data.drop(__DROPPED, inplace=True)
+self.data.drop(columns=[_COL], inplace=True)
+""")
+    if b is None:
+        ctx.shape('C13.R2', 'Database.remove', False, f, '', 'a temporary column receives the expression; excludedData = len(rows where it is non-zero); those rows are dropped; the column is dropped')
+    else:
+        from ..core import inline_locals
+
+        col = b['_COL']
+        pred = f'self.data[self.data[{col}] != 0].index'
+        counted, dropped = (unparse(inline_locals(f.node, b[k][1])) for k in ('__COUNTED', '__DROPPED'))
+        pred = unparse(inline_locals(f.node, ast.parse(pred).body[0].value))
+        ok = counted == pred and dropped == pred
+        ctx.add('C13.R2', 'Database.remove', ok, f, 'counts and drops the rows where the expression is non-zero, then drops the temporary column' if ok
+                else f'remove counts {counted} and drops {dropped}; both must be the rows where the temporary column is non-zero ({pred})', f'{counted} ; {dropped}')
     f = D.methods['add_column']
     cfg = cfg_of(f.node)
     dup = [n for n in walk_no_nested(f.node) if isinstance(n, ast.If) and unparse(n.test) == 'column in self.data.columns' and any(isinstance(x, ast.Raise) for x in n.body)]
